@@ -30,15 +30,6 @@ fn variant(dbg: &str) -> String {
 pub fn hostile<B: FA, H: ElementHasher<BaseField = B>>(bytes: &[u8], descs: &[Arc<Desc>], obs: &mut Obs) -> CheckResult {
     crash::guard_begin();
     let r = (|| -> CheckResult {
-        let parsed = match vf_core::catch(|| Proof::from_bytes(bytes)) {
-            Err(p) => return Err(Fail::new(format!("parse/{}", p.key()), format!("Proof::from_bytes panicked: {} at {}:{}", p.msg, p.file, p.line))),
-            Ok(Err(_)) => {
-                obs.label("stage=parse-error");
-                return Ok(());
-            },
-            Ok(Ok(p)) => p,
-        };
-        obs.nontrivial();
         // the same bytes through the streaming reader (Proof::read_from over a ReadAdapter): no panic either;
         // its memory requests are measured together with everything else in this function
         {
@@ -51,6 +42,15 @@ pub fn hostile<B: FA, H: ElementHasher<BaseField = B>>(bytes: &[u8], descs: &[Ar
                 return Err(Fail::new(format!("parse-stream/{}", p.key()), format!("Proof::read_from over a ReadAdapter panicked: {} at {}:{}", p.msg, p.file, p.line)));
             }
         }
+        let parsed = match vf_core::catch(|| Proof::from_bytes(bytes)) {
+            Err(p) => return Err(Fail::new(format!("parse/{}", p.key()), format!("Proof::from_bytes panicked: {} at {}:{}", p.msg, p.file, p.line))),
+            Ok(Err(_)) => {
+                obs.label("stage=parse-error");
+                return Ok(());
+            },
+            Ok(Ok(p)) => p,
+        };
+        obs.nontrivial();
         // the verifier's acceptance policy is evaluated on the options the bytes claim before anything else:
         // every kind of policy takes part (chosen by the input itself, so that a replay is a function of the bytes)
         let pick = bytes.iter().fold(0u32, |a, b| a.wrapping_mul(31).wrapping_add(*b as u32));
